@@ -98,8 +98,8 @@ func main() {
 	var mu sync.Mutex
 	combos := map[string]int{}
 	reverts := int64(0)
-	viol := func(key, what string, beh *chain.Behaviour, i int) {
-		c.Violation(key, what, map[string]any{"behaviour": beh.Steps[:i+1]})
+	viol := func(sim *chain.Sim, key, what string, beh *chain.Behaviour, i int) {
+		c.Violation(key, what, chain.Payload(sim, beh, i))
 	}
 	opts := chain.RunOpts{Num: c.Pick(160, 4000), Depth: 64, Timeout: 20 * time.Minute,
 		KeyOf: func(m chain.Mismatch) string { return "spec-state/" + m.Kind + "/" + m.Tag },
@@ -150,38 +150,44 @@ func main() {
 			// (a) store == snapshot before the apply
 			if a.Snap != nil {
 				if d := sim.DiffSnap(a.Snap); len(d) > 0 {
-					viol("store-differs-after-revert/"+suffix, fmt.Sprintf("after reverting a block containing {%s} the store differs from the one before the apply: %s", suffix, d[0]), beh, i)
+					viol(sim, "store-differs-after-revert/"+suffix, fmt.Sprintf("after reverting a block containing {%s} the store differs from the one before the apply: %s", suffix, d[0]), beh, i)
 				}
 			}
 			// (c) every element verifies against the parent state
 			if bad := sim.VerifyStore(); len(bad) > 0 {
-				viol("proof-invalid-after-revert/"+suffix, fmt.Sprintf("after reverting a block containing {%s}, %d stored element(s) do not verify against the parent state, e.g. %s", suffix, len(bad), bad[0]), beh, i)
+				viol(sim, "proof-invalid-after-revert/"+suffix, fmt.Sprintf("after reverting a block containing {%s}, %d stored element(s) do not verify against the parent state, e.g. %s", suffix, len(bad), bad[0]), beh, i)
 			}
 			// (b) revert diffs are the apply diffs reversed
 			ru := consensus.RevertBlock(a.Prev, a.Block, a.Supp)
 			if msg := reversed(a.Update, ru); msg != "" {
-				viol("revert-diffs-not-reversed-apply-diffs/"+suffix, msg, beh, i)
+				viol(sim, "revert-diffs-not-reversed-apply-diffs/"+suffix, msg, beh, i)
 			}
 			// (d) re-apply is byte-identical (supplement rebuilt from the reverted store)
 			bs2 := sim.Supplement(a.Block.Transactions)
 			var cs2 consensus.State
 			var au2 consensus.ApplyUpdate
 			if p, _ := vlib.Recover(func() { cs2, au2 = consensus.ApplyBlock(sim.CS, a.Block, bs2, time.Time{}) }); p {
-				viol("reapply-panics/"+suffix, "re-applying the reverted block panics", beh, i)
+				viol(sim, "reapply-panics/"+suffix, "re-applying the reverted block panics", beh, i)
 			} else {
 				if !bytes.Equal(enc(cs2), enc(a.Next)) {
-					viol("reapply-state-differs/"+suffix, "re-applying the reverted block gives a different State encoding", beh, i)
+					viol(sim, "reapply-state-differs/"+suffix, "re-applying the reverted block gives a different State encoding", beh, i)
 				}
 				j1, _ := json.Marshal(a.Update)
 				j2, _ := json.Marshal(au2)
 				if !bytes.Equal(j1, j2) {
-					viol("reapply-diffs-differ/"+suffix, "re-applying the reverted block gives different update JSON", beh, i)
+					viol(sim, "reapply-diffs-differ/"+suffix, "re-applying the reverted block gives different update JSON", beh, i)
 				}
 			}
 		}
 		mu.Lock()
 		lasts[sim] = stack
 		mu.Unlock()
+	}
+	if c.Replay != "" {
+		if !chain.Replay(c, opts) {
+			c.Fatal("replay file holds no behaviour")
+		}
+		c.Finish()
 	}
 	total := chain.RunStats{}
 	type run struct {
